@@ -208,6 +208,9 @@ for suf, gl, cl in LAYS:
       functions=ALIGN_FUNCS[:4] + ["ast_grep_core::match_tree::match_node::match_single_node_while_skip_trivial", "ast_grep_core::match_tree::ComputeEnd"], assumes=ALIGN_ASSUMES,
       shape="FLAT", bounds=f"kind layout concrete (goals {gl}, candidates {cl}); texts of the named leaves symbolic over {{x,y}}; all 5 strictness levels (symbolic); unwind 8 (matcher loops 6), recursion depth 1")
 
+H(prop="C03", name="c03_layc_sep_vs_two_named_ast", crate="core-h", module="c03_align", kani_args=LIGHT, recursion=REC_FLAT, loops=LOOPS_FLAT, features=["hooks", "n4"], timeout=1800, tier="lab", mem_gb=24,
+  decides="pattern children `x ,` against node children `x y` under ast: the sibling alignment accepts => a legal alignment exists",
+  functions=ALIGN_FUNCS[:4], assumes=ALIGN_ASSUMES, shape="FLAT", bounds="kind layout and strictness concrete; texts of the named leaves symbolic over {x,y}; unwind 8")
 H(prop="C03", name="c03_terminal_step", crate="core-h", module="c03_terminal", features=["hooks", "n4"],
   decides="match_terminal / should_skip_trailing == decision table of the strictness documentation; MatchedBoth => kinds agree (or goal ERROR) and (unnamed or text equal or signature)",
   functions=["ast_grep_core::match_tree::strictness::MatchStrictness::match_terminal", "ast_grep_core::match_tree::strictness::MatchStrictness::should_skip_trailing"],
@@ -551,7 +554,7 @@ for sh in range(2, 9):
 # lab      = harnesses kept as the record of what was tried but which the engine does not
 #            decide on this machine (time-outs / out of memory, DESIGN 3).  They are run only
 #            with `--tier lab`; no registered command runs them, no claim rests on them.
-_LAB_PREFIXES = ("c03_env_", "c03_len_", "c03_tt_", "c03_sep_", "c03_lay_", "c07_indent_shift", "c05k_logic", "c01k_rule_kinds", "c02_", "c04_", "c04k_", "c05d_", "c05_", 
+_LAB_PREFIXES = ("c03_env_", "c03_len_", "c03_tt_", "c03_sep_", "c03_lay_", "c03_layc_", "c07_indent_shift", "c05k_logic", "c01k_rule_kinds", "c02_", "c04_", "c04k_", "c05d_", "c05_", 
                  "c14_", "c12_", "c13_", "c01_combined", "c01_kinds_algebra", "c01_find_all_shape", "c01_outermost_shape", "c01_find_all_exact_n", "c01_outermost_pre_n", "c06_replace_all_disjoint_n4",
                  "c06_rewrite", "c06_replace_all_shape", "c07_template_scan", "c11_replace_regex_total", "c11_string_case_split", "c19_level_", "c19_levelq_")
 for _h in HARNESSES:
